@@ -302,8 +302,12 @@ class Result:
             "coverage": cov, "assumptions": assumptions or self.assumptions,
             "wall_s": round(time.time() - self.t0, 2), "violations": len(self.violations),
         }
-        os.makedirs(os.path.join(VERIF, "evidence"), exist_ok=True)
-        write(os.path.join(VERIF, "evidence", self.prop + ".json"), json.dumps(ev, indent=1, default=str) + "\n")
+        # evidence/ describes runs against /repo itself; a run against another tree ($REPO: seeded defects, old commits) or a
+        # partial debugging run must not overwrite it
+        partial = any(os.environ.get(v) for v in ("VERIF_C18_ONLY", "VERIF_C17_MODEL_ONLY"))
+        edir = os.path.join(VERIF, "evidence") if os.path.realpath(REPO) == "/repo" and not partial else os.path.join(CACHE, "evidence-other-trees")
+        os.makedirs(edir, exist_ok=True)
+        write(os.path.join(edir, self.prop + ".json"), json.dumps(ev, indent=1, default=str) + "\n")
         for sig, what in self.known_hits:
             print("KNOWN-FINDING: property=%s %s :: %s" % (self.prop, sig, what.splitlines()[0][:300]))
         for sig, what, rd in self.violations:
